@@ -25,7 +25,9 @@ var bareNames = []string{"a", "b", "c", "d", "e", "f", "g", "x1", "y_2", "Name",
 	// names that differ from another one of this list only in the case of a non-ASCII letter: different names to SQLite
 	"É", "Ж", "ωmega", "NAÏVE", "\u212a", "k", "ſ", "s",
 	// the ends of the ranges: the last letters of the alphabet, the first code point above ASCII
-	"z", "Z_z", "\u0080q"}
+	"z", "Z_z", "\u0080q",
+	// words of the ON CONFLICT clause, which are ordinary names elsewhere
+	"fail", "ignore", "abort", "rollback"}
 var quotedNames = []string{"select", "my col", "a\"b", "from", "a]b", "x`y", "tab,le", "1st", "é é", "primary", "key", "(", "a'b", "", "x.y", "--c", "q\"", "tick`", "\"\"", "end]x", "it's", "*", "*", "*", "100%done", "%s", "%d%%"}
 
 func quote(name string, style int) string {
